@@ -76,8 +76,20 @@ def check(ctx):
         for hint in hints:
             def run(it, w, prefix=prefix, hint=hint):
                 it.generic_loop_fixed = 1
-                it.call(CF, [Ext("component", "user", role="instance"), cname, prefix], {})
-                return [e for e in it.trace if e.kind == "ext"]
+                fbs = it.call(CF, [Ext("component", "user", role="instance"), cname, prefix], {})
+                evs_ = [e for e in it.trace if e.kind == "ext"]
+                # the setter that comes back hands every value to NetworkTables: two calls -> two set events
+                n0 = len(it.trace)
+                pairs = it.materialize(fbs, None) if fbs is not None else []
+                for pr in pairs:
+                    st = pr[1] if isinstance(pr, tuple) and len(pr) == 2 else None
+                    if st is None:
+                        continue
+                    for j in range(2):
+                        it.call(st, [Ext(f"value{j}", "user", role="result")], {})
+                sets = [e for e in it.trace[n0:] if e.kind == "ext" and (e.name.endswith(".setValue") or e.name.endswith(".set"))]
+                it.setter_calls = (2 * len(pairs), len(sets))
+                return evs_
 
             paths = fn.all_paths(ctx, run, hooks=lambda: H(hint))
             n_paths += len(paths)
@@ -86,6 +98,8 @@ def check(ctx):
                     ctx.fail("C11.O3", f"collect_feedbacks raises {fn.exc_name(p.value) if p.outcome == 'raise' else p.value}", site=site, key="C11.O3|raise")
                     continue
                 evs = p.value
+                want_n, got_n = getattr(p.interp, "setter_calls", (0, 0))
+                ctx.require(want_n == got_n, "C11.O2", "the setter of a feedback pair passes every value on to NetworkTables", f"the setter that collect_feedbacks returns reaches NetworkTables {got_n} times for {want_n} values (path [{'; '.join(f'{a[0]}={v}' for a, v, _ in p.path)}]): a value returned by the getter is not published (filtered / cached setter)", site=site, key="C11.O2|setter")
                 if not any(e.name.endswith(".getEntry") or e.name.endswith(".getTopic") for e in evs):
                     continue  # zero members
                 tables = [e for e in evs if e.name.endswith(".getTable")]
